@@ -30,7 +30,7 @@ func plainWrites(scripts ...*chain.Script) {
 			continue
 		}
 		for i := range s.Ops {
-			if s.Ops[i].K == chain.OpWrite {
+			if s.Ops[i].K == chain.OpWrite && s.Ops[i].N == 1 {
 				s.Ops[i].N = 0
 			}
 			if s.Ops[i].K == chain.OpBlob {
@@ -41,7 +41,7 @@ func plainWrites(scripts ...*chain.Script) {
 }
 
 func genOp(t *rapid.T) chain.Op {
-	switch rapid.IntRange(0, 13).Draw(t, "op") {
+	switch rapid.IntRange(0, 14).Draw(t, "op") {
 	case 0, 1, 2:
 		return chain.Op{K: chain.OpStatus, N: codeGen.Draw(t, "code")}
 	case 3, 4, 5:
@@ -50,8 +50,13 @@ func genOp(t *rapid.T) chain.Op {
 			// bodies beyond any small buffer: 1-5 KB
 			op.S = strings.Repeat(op.S+"0123456789abcdef", rapid.IntRange(70, 300).Draw(t, "bigReps"))
 		}
-		if rapid.IntRange(0, 3).Draw(t, "viaWriteString") == 0 {
+		switch rapid.IntRange(0, 5).Draw(t, "writeVia") {
+		case 0:
 			op.N = 1 // Context.WriteString instead of Resp.Write
+		case 1:
+			if op.S != "" {
+				op.N = 2 // io.Copy(c.Resp, reader): the body is streamed into the writer
+			}
 		}
 		return op
 	case 6, 7:
@@ -62,6 +67,9 @@ func genOp(t *rapid.T) chain.Op {
 		return chain.Op{K: chain.OpHTTPError, N: rapid.SampledFrom([]int{400, 404, 500}).Draw(t, "ecode"), S: rapid.StringMatching(`[a-z]{0,5}`).Draw(t, "emsg")}
 	case 10:
 		return chain.Op{K: chain.OpRedirect, N: rapid.SampledFrom([]int{301, 302, 307}).Draw(t, "rcode"), S: "/" + rapid.StringMatching(`[a-z]{0,3}`).Draw(t, "rurl")}
+	case 13:
+		// an abort that records a status (nothing is committed by it): later status / header settings still count
+		return chain.Op{K: chain.OpAbortStatus, N: rapid.SampledFrom([]int{401, 403, 503}).Draw(t, "abortStatus")}
 	case 12:
 		// the handler keeps a copy of its context for a background job, or wraps the response writer
 		return chain.Op{K: rapid.SampledFrom([]chain.OpKind{chain.OpCopy, chain.OpWrapResp}).Draw(t, "copyOrWrap")}
